@@ -344,8 +344,7 @@ Definition node_value_before_D49 (net : network) (p : path) : result :=
 (* ---- hierarchical circuits (CircuitTemplate(circuits={...}), depth >= 1): a node is addressed by
         <circuit>/.../<node>/<op>/<var>.  get_nodes / get_node_template walk the circuit levels with `net[level]`:
         a circuit level that does not exist raises KeyError (class D31 of C06) before anything else is looked at; below
-        the circuit levels the flat rules apply to the addressed sub-circuit.  An extrinsic input on a circuit of depth
-        >= 2 raises AttributeError whatever it addresses (D30 of C08). ---- *)
+        the circuit levels the flat rules apply to the addressed sub-circuit. ---- *)
 Definition hnode := (list string * list opd)%type.       (* full key of the node: circuit levels ++ [node name] *)
 Definition hnetwork := list hnode.
 Fixpoint list_eqb (a b : list string) : bool :=
@@ -363,7 +362,7 @@ Inductive hkind := HEdge | HInput | HUpdate | HNodeValue | HOutput.
 Definition flat_probe_result (k : hkind) (depth : nat) (net : network) (p : path) : result :=
   match k with
   | HEdge => edge_endpoint net p
-  | HInput => if Nat.leb 2 depth then Err EOther else add_input net p
+  | HInput => add_input net p          (* since D89 inputs work at any depth (before: AttributeError at depth >= 2, D30) *)
   | HUpdate => update_var net p
   | HNodeValue => node_value net p
   | HOutput => resolve_outputs net [p]
@@ -380,12 +379,12 @@ Definition names_circuit (hnet : hnetwork) (nid : list string) : bool :=
 Definition nowhere : path := [""; ""; ""].
 (* after D73 a circuit level that does not exist behaves like a node that does not exist (the addressed sub-network is
    empty): output -> PyRatesException (D48), input / update_var / node_values -> warning (D13, D49), edge -> KeyError.
-   A key that is too short: its node part names a circuit -> IndexError for outputs, inputs, update_var, silence (F4) for
-   node_values; it names nothing -> as for a node that does not exist. *)
+   Since D87 a key that is too short for the hierarchy (its node part names a circuit, or nothing) matches no node either
+   and is treated the same way; before D79 a too-short node_values key that names a circuit was dropped silently (F4). *)
+Definition is_node_value (k : hkind) : bool := match k with HNodeValue => true | _ => false end.
 Definition hier_result_gen (fixed4 : bool) (k : hkind) (depth : nat) (hnet : hnetwork) (p : path) : result :=
   if too_short depth p then
-    if names_circuit hnet (node_part p) then
-      match k with HNodeValue => if fixed4 then Warn else Ok | _ => Err EOther end
+    if names_circuit hnet (node_part p) && is_node_value k && negb fixed4 then Ok
     else flat_probe_result k depth [] nowhere
   else flat_probe_result k depth (subnet hnet (firstn depth p)) (skipn depth p).
 Definition hier_result := hier_result_gen fixed_F4.
